@@ -6,9 +6,12 @@ kinds:
   volumes  -> calculate_element_volumes() of a fresh object
   matrices -> calculate_spatial_gradient_adjacency_matrices(**kw) of a fresh object
   conv     -> calculate_{nodal,elemental}_spatial_gradients(data, **kw) of a fresh object
+  sequence -> ONE object, the calls of job['steps'] in order (each a 'matrices'
+              or 'conv' call); one result per step
 Every float is returned as float.hex() (exact).  Results go to the file `out`
 (femio prints to stdout).  A FEMData object is never queried twice (the
-lru_caches on the graph methods are never invalidated)."""
+lru_caches on the graph methods are never invalidated) except in a 'sequence'
+job, whose purpose is to observe the same object across several calls."""
 import contextlib
 import io
 import json
@@ -38,40 +41,54 @@ def main():
     def hx(a):
         return [float(x).hex() for x in np.asarray(a, dtype=float).ravel()]
 
+    def coo(mats):
+        out = []
+        for A in mats:
+            A = A.tocoo()
+            out.append({'shape': list(A.shape), 'row': [int(x) for x in A.row],
+                        'col': [int(x) for x in A.col], 'data': hx(A.data)})
+        return out
+
+    def call(fd, kind, kw, data, res):
+        kw = dict(kw)
+        if kind == 'matrices':
+            mats = fd.calculate_spatial_gradient_adjacency_matrices(**kw)
+            res['n_matrices'] = len(mats)
+            res['matrices'] = coo(mats)
+        elif kind == 'conv':
+            arr = np.array(data, dtype=float)
+            mode = kw.pop('mode')
+            if mode == 'nodal':
+                g = fd.calculate_nodal_spatial_gradients(arr, **kw)
+            else:
+                g = fd.calculate_elemental_spatial_gradients(arr, **kw)
+            g = np.asarray(g)
+            res['shape'] = list(g.shape)
+            res['grad'] = hx(g)
+        else:
+            raise ValueError(kind)
+
     results = []
     for job in spec['jobs']:
         res = {'id': job['id']}
         try:
             with contextlib.redirect_stdout(sink):
                 fd = build(spec['meshes'][job['mesh']])
-                kw = dict(job.get('kw', {}))
                 if job['kind'] == 'volumes':
                     v = fd.calculate_element_volumes()
                     res['shape'] = list(np.asarray(v).shape)
                     res['volumes'] = hx(v)
-                elif job['kind'] == 'matrices':
-                    mats = fd.calculate_spatial_gradient_adjacency_matrices(**kw)
-                    out = []
-                    for A in mats:
-                        A = A.tocoo()
-                        out.append({'shape': list(A.shape),
-                                    'row': [int(x) for x in A.row],
-                                    'col': [int(x) for x in A.col],
-                                    'data': hx(A.data)})
-                    res['n_matrices'] = len(mats)
-                    res['matrices'] = out
-                elif job['kind'] == 'conv':
-                    data = np.array(job['data'], dtype=float)
-                    mode = kw.pop('mode')
-                    if mode == 'nodal':
-                        g = fd.calculate_nodal_spatial_gradients(data, **kw)
-                    else:
-                        g = fd.calculate_elemental_spatial_gradients(data, **kw)
-                    g = np.asarray(g)
-                    res['shape'] = list(g.shape)
-                    res['grad'] = hx(g)
+                elif job['kind'] == 'sequence':
+                    res['steps'] = []
+                    for st in job['steps']:
+                        r = {}
+                        try:
+                            call(fd, st['kind'], st['kw'], st.get('data'), r)
+                        except Exception as e:
+                            r['error'] = type(e).__name__ + ': ' + str(e)[:300]
+                        res['steps'].append(r)
                 else:
-                    raise ValueError(job['kind'])
+                    call(fd, job['kind'], job.get('kw', {}), job.get('data'), res)
         except Exception as e:   # reported, compared with the model's rejection
             res['error'] = type(e).__name__ + ': ' + str(e)[:300]
             res['trace'] = traceback.format_exc()[-1500:]
